@@ -334,6 +334,14 @@ func codeOrNone(c string) string {
 	return c
 }
 
+// expectPlainDesc: a blob is its bytes, and its descriptor says their type, digest and size - nothing a
+// caller once attached to a push, and nothing a caller can still change.
+func (v *verdict) expectPlainDesc(out *Outcome) {
+	if out.OK && out.Extra != "" {
+		v.add("semantics", "descriptor-extra-fields", fmt.Sprintf("%s: the descriptor also carries %s", v.op, out.Extra))
+	}
+}
+
 func (v *verdict) expectDesc(out *Outcome, digest string, size int64, mediaType string) {
 	if out.Digest != digest {
 		v.add("semantics", "descriptor-digest", fmt.Sprintf("%s: descriptor digest %s, want %s", v.op, out.Digest, digest))
@@ -418,6 +426,10 @@ func (v *verdict) missing(r *Repo, out *Outcome, why, contentCode string) {
 // (following the outcome where the model leaves a choice) and returns the complaints.
 func (m *Model) Apply(op *Op, out *Outcome) []Complaint {
 	v := &verdict{op: op}
+	switch op.Kind {
+	case "GetBlob", "ResolveBlob", "GetBlobRange", "MountBlob":
+		v.expectPlainDesc(out)
+	}
 	switch op.Kind {
 	case "GetBlob", "ResolveBlob", "GetBlobRange":
 		r, done := v.unknownRepo(m, out, op.Repo, "BLOB_UNKNOWN")
